@@ -1,4 +1,5 @@
 """C18 — symbolized callables keep Python call semantics."""
+import copy as copy_mod
 import inspect
 import sys
 import types
@@ -931,7 +932,7 @@ def nested_history(ctx, t, rng):
     how = 'partial'
   witness = t.witness(**{'root': root_kind, 'entry': t.entry if root_kind == 'functor' else 'class-' + t.class_entry,
                          'source': (t.csrc if root_kind == 'class' else t.fsrc),
-                         how: [a1, k1], 'copy-before-binding': copy, 'operations': ops,
+                         how: copy_mod.deepcopy([a1, k1]), 'copy-before-binding': copy, 'operations': ops,
                          'call': k_call})
   c['nested_histories'] += 1
   c['nested_root:' + root_kind] += 1
